@@ -163,7 +163,7 @@ Proof. vm_compute. reflexivity. Qed.
 Lemma tie_bvp : forallb (fun mt : lookup_t * list expr => opt_eqb (bvp_model (fst mt)) (snd mt)) index_bvp = true.
 Proof. vm_compute. reflexivity. Qed.
 
-Lemma index_sizes : List.length index_ivp = 94%nat /\ List.length index_bvp = 209%nat.
+Lemma index_sizes : List.length index_ivp = 110%nat /\ List.length index_bvp = 251%nat.
 Proof. split; reflexivity. Qed.
 
 (* hence: for every lookup table of the quantifier, the generated term IS the model *)
